@@ -713,3 +713,37 @@ class Explorer:
             return st
         self.walk(start, 0, step, edge=edge, env0=env0)
         return seen
+
+
+def chain_calls(fn, operand, limit=64):
+    """names of the (transparent) calls a value passes through on its backward def chain"""
+    out = set()
+    seen = set()
+    work = []
+    pl = op_place(operand)
+    if pl is not None:
+        work.append(pl["l"])
+    defs = fn.defs()
+    while work and len(seen) < limit:
+        l = work.pop()
+        if l in seen:
+            continue
+        seen.add(l)
+        for (b, si, node) in defs.get(l, []):
+            if fn.is_cleanup(b):
+                continue
+            if si is None:
+                out.add(strip_generics(callee_name(node)))
+                out.add(strip_generics(node.get("callee") or ""))
+                if transparent(node) is not None and node["args"]:
+                    a = node["args"][transparent(node)[0]]
+                    if op_place(a) is not None:
+                        work.append(a["pl"]["l"])
+            else:
+                rv = node["rv"]
+                if rv["r"] in ("use", "cast") and op_place(rv["a"][0]) is not None:
+                    work.append(rv["a"][0]["pl"]["l"])
+                elif rv["r"] in ("ref", "raw"):
+                    work.append(rv["pl"]["l"])
+    out.discard("")
+    return out
